@@ -14,7 +14,9 @@ struct Case {
     int                  target{0}; // 0 Array<int>, 1 Array<String<char>>, 2 String, 3 StringStream, 4 StringView
     int                  width{1};  // for the string-like targets
     std::vector<uint8_t> bytes;
+    int                  gen2{0};   // 1: copy-appends may take their argument from the array itself (absent in older files: 0)
 };
+static thread_local bool g_gen2 = false;
 
 using jm::Entropy;
 using jm::Units;
@@ -115,6 +117,15 @@ void run_array(const Case &c, pbt::Ctx &ctx, Trace &tr) {
             case 2: {
                 name = "+= item (copy)";
                 T x  = Elem<T>::make(e);
+                if (g_gen2 && !m.empty() && (step % 3) == 1) {
+                    // the argument is an element of the array itself (a += a[i], what push_back(v[i]) is for a std::vector): the
+                    // array may have to grow while it still has to read that element
+                    name             = "+= item (copy of an own element)";
+                    const size_t idx = m.size() / 2;
+                    m.push_back(T(m[idx]));
+                    a += a.Storage()[idx];
+                    break;
+                }
                 m.push_back(x);
                 a += x;
                 break;
@@ -123,7 +134,19 @@ void run_array(const Case &c, pbt::Ctx &ctx, Trace &tr) {
                 name  = "Insert(item) returns the new element";
                 T  x  = Elem<T>::make(e);
                 T  y  = x;
-                T &r  = e.chance(50) ? a.Insert(Memory::Move(x)) : a.Insert(y);
+                const bool by_move = e.chance(50);
+                if (g_gen2 && !by_move && !m.empty() && (step % 2) == 1) {
+                    name             = "Insert(own element)";
+                    const size_t idx = (m.size() - 1) / 2;
+                    y                = m[idx];
+                    T &r2            = a.Insert(a.Storage()[idx]);
+                    m.push_back(y);
+                    if (&r2 != a.Last() || !Elem<T>::eq(r2, y)) {
+                        ctx.fail("array-insert-reference", "Insert(own element) did not return the appended element");
+                    }
+                    break;
+                }
+                T &r  = by_move ? a.Insert(Memory::Move(x)) : a.Insert(y);
                 m.push_back(y);
                 if (&r != a.Last() || !Elem<T>::eq(r, y)) {
                     ctx.fail("array-insert-reference", "Insert() did not return the appended element");
@@ -936,6 +959,31 @@ void run_view(const Case &c, pbt::Ctx &ctx, Trace &tr) {
                      (pz == z.get()) == (r == 0);
             }
         }
+        if (g_gen2) {
+            // long operands that differ in exactly one unit (or not at all): 16-75 units, the difference anywhere - equality and
+            // order are decided by every position, also those a block-wise comparison might skip
+            Units la;
+            const size_t L = 16 + (step * 7 + a.size() * 5) % 60;
+            for (size_t i = 0; i < L; ++i) {
+                la.push_back(a.empty() ? uint32_t('k' + i % 7) : (a[i % a.size()] == 0 ? uint32_t('z') : a[i % a.size()]));
+            }
+            Units        lb  = la;
+            const size_t pos = (step * 13 + b.size() * 3 + L / 2) % L;
+            const bool   same = (step % 4) == 3;
+            if (!same) {
+                lb[pos] = (lb[pos] == 'q') ? 'r' : 'q';
+            }
+            jm::Buf<Char_T>    bla(la), blb(lb);
+            StringView<Char_T> vla{bla.cp(), SizeT(bla.n)}, vlb{blb.cp(), SizeT(blb.n)};
+            String<Char_T>     sla{bla.cp(), SizeT(bla.n)}, slb{blb.cp(), SizeT(blb.n)};
+            const int          r = ref_cmp(la, lb);
+            ok = ok && ord_ok(vla, vlb, r) && ord_ok(vlb, vla, -r) && ((vla != vlb) == (r != 0)) && (vla.IsEqual(blb.cp(), SizeT(blb.n)) == (r == 0)) &&
+                 ((sla == slb) == (r == 0)) && ((sla != slb) == (r != 0)) && ((sla < slb) == (r < 0)) && ((sla > slb) == (r > 0)) &&
+                 ((sla <= slb) == (r <= 0)) && ((sla >= slb) == (r >= 0)) && (StringUtils::IsEqual(bla.cp(), blb.cp(), SizeT(L)) == (r == 0));
+            if (!ok) {
+                ctx.fail("view-model-mismatch", "long operands " + jm::show(la) + " / " + jm::show(lb) + " (difference at " + std::to_string(pos) + ")");
+            }
+        }
         size_t n = 0;
         for (Char_T ch : va) {
             ok = ok && n < a.size() && jm::unit_of(ch) == a[n];
@@ -1010,12 +1058,13 @@ struct H {
     static rc::Gen<Case> gen() {
         using namespace rc;
         return gen::map(gen::tuple(gen::resize(300, gen::container<std::vector<uint8_t>>(gen::arbitrary<uint8_t>())), pbt::pick<int>({0, 0, 1, 1, 2, 2, 3, 3, 3, 4}),
-                                   pbt::pick<int>({1, 1, 2, 4})),
-                        [](std::tuple<std::vector<uint8_t>, int, int> t) {
+                                   pbt::pick<int>({1, 1, 2, 4}), pbt::pick<int>({0, 1, 1})),
+                        [](std::tuple<std::vector<uint8_t>, int, int, int> t) {
                             Case c;
                             c.bytes  = std::get<0>(t);
                             c.target = std::get<1>(t);
                             c.width  = std::get<2>(t);
+                            c.gen2   = std::get<3>(t);
                             return c;
                         });
     }
@@ -1026,6 +1075,7 @@ struct H {
         uint8_t          s   = f.sel();
         c.width  = w[s & 3];
         c.target = (s >> 2) % 5;
+        c.gen2   = (s >> 6) & 1;
         c.bytes  = f.rest();
         return true;
     }
@@ -1038,6 +1088,7 @@ struct H {
             hex += b;
         }
         kv.put("target", c.target);
+        kv.put("gen2", c.gen2);
         kv.put("width", c.width);
         kv.put("bytes", hex);
         return kv.text();
@@ -1050,6 +1101,7 @@ struct H {
             c.bytes.push_back(uint8_t(strtoul(hex.substr(i, 2).c_str(), nullptr, 16)));
         }
         c.target = int(kv.geti("target"));
+        c.gen2   = int(kv.geti("gen2", 0));
         c.width  = int(kv.geti("width", 1));
         return c;
     }
@@ -1064,6 +1116,7 @@ struct H {
         }
     }
     static void run(const Case &c, pbt::Ctx &ctx) {
+        g_gen2 = (c.gen2 != 0);
         Trace tr;
         ctx.label(c.target == 0 ? "target:Array<int>" : c.target == 1 ? "target:Array<String>" : c.target == 2 ? "target:String" : c.target == 3 ? "target:StringStream" : "target:StringView");
         try {
